@@ -169,6 +169,19 @@ CHECKS["C18"] = dict(
          "single-polarisation layouts are not claimed.",
     design="DESIGN.md section 4 (C18)")
 
+CHECKS["C14"] = dict(
+    engine="E1 nbsym on downsample_1d_mean / downsample_2d_mean_flat / detrend_1d; E3 (real numpy over object arrays of symbolic reals) on running_filter, downsample_1d/2d/2d_flat, TimeSeries.deredden, FilterbankBlock.downsample; z3",
+    technique="symbolic execution of numba's typed IR of the decimation/detrend kernels and of the real numpy glue bytecode over object arrays of symbolic reals (np.pad, reshape, mean(axis) are numpy's own); z3 (LRA/NRA + UF for medians) decides every shape/factor/window; models replayed against brute-force numpy definitions",
+    text="Every (length, factor) up to the bound for the 1-D mean kernel (float32 and uint8: accumulate without wrap, truncate once), every small "
+         "non-square shape and factor pair for the flattened 2-D kernel, and detrend_1d (both normal equations and linearity of the removed trend) "
+         "are decided from the typed IR. The real running_filter runs on numpy object arrays through numpy's own symmetric pad for every "
+         "(n, window) up to the bound, both methods: each output equals the mean/median of the centred window over the symmetrically reflected "
+         "series and the length is preserved; the real 1-D/2-D/flat decimators (mean via the interpreted kernels, median via numpy reshape) give "
+         "the group statistic of every full group on both axes; deredden is input minus filter; FilterbankBlock.downsample's header follows the factors.",
+    note="bottleneck's moving windows and the median are trusted stubs (median = uninterpreted function of its ordered window); exact arithmetic; "
+         "running_filter_fast is outside the claim.",
+    design="DESIGN.md section 4 (C14)")
+
 NOT_APPLICABLE = {}
 
 PENDING = "check not built yet in this round (see DESIGN.md section 8 for the build order); no claim is made"
